@@ -2,6 +2,7 @@
 from . import proto
 
 GHOST = 'ghost.svc'
+GLOB_GHOSTS = ('*', '?????.svc')      # service names that are wildcard patterns covering the configured names: still not those services
 
 DATA_ALL = ('N', 'd', 'u', 'u0', 'n', 'U', 'H')
 END_ALL = ('D', 'T')
@@ -9,7 +10,7 @@ END_ALL = ('D', 'T')
 
 def make(ids, data=DATA_ALL, ends=END_ALL, passwords=tuple(proto.PASSWORDS), replies=proto.REPLY_KINDS,
          old_replies=('OKA', 'NO', 'MORE', 'UNL', 'OK'), malformed=proto.MALFORMED_TAGS, malformed_replies=('OKA', 'NO'),
-         ghost_replies=('OKA', 'NO', 'MORE', 'UNL'), with_timeout=True, pbudget=None, dead_probes=True, reannounce=True, alt_announce=False):
+         ghost_replies=('OKA', 'NO', 'MORE', 'UNL'), with_timeout=True, pbudget=None, dead_probes=True, reannounce=True, alt_announce=False, glob_ghosts=()):
     def fn(st, w):
         evs = []
         if with_timeout and getattr(st, 'orphans', 0):
@@ -41,6 +42,7 @@ def make(ids, data=DATA_ALL, ends=END_ALL, passwords=tuple(proto.PASSWORDS), rep
             for tk in malformed:
                 evs += [('X', i, s0, tk, rk) for rk in malformed_replies]
             evs += [('X', i, GHOST, 'cur', rk) for rk in ghost_replies]
+            evs += [('X', i, g, 'cur', rk) for g in glob_ghosts for rk in ghost_replies[:2]]
             if with_timeout and w.timeout > 0 and st.timers.get(i) == 1:
                 evs.append(('TO', i))
         return evs
@@ -69,7 +71,7 @@ def reduced(ids, **kw):
 
 def scen_hurry(ids, **kw):
     """S_A: data arrives only as hurry-up; rich passwords / replies / stray replies."""
-    d = dict(data=('H',), ends=('D', 'T'), passwords=('x', 'bang', 'nobang', 'xbang', 'rebang', 'nopass', 'bangword'), pbudget=2)
+    d = dict(data=('H',), ends=('D', 'T'), passwords=('x', 'bang', 'nobang', 'xbang', 'rebang', 'nopass', 'bangword'), pbudget=2, glob_ghosts=GLOB_GHOSTS)
     d.update(kw)
     return make(ids, **d)
 
